@@ -753,6 +753,18 @@ class Structural:
         half = (nn // 2 + 1) if isinstance(nn, int) else T.sadd(T.sfloordiv(nn, 2), 1)
         return self._gi(full, slice(0, half))
 
+    @reg('numpy.fft.irfft', 'scipy.fft.irfft')
+    def np_irfft(self, x, n=None, axis=-1):
+        """inverse of rfft: a real array of n points (default 2*(m-1)); uninterpreted kernel of (half spectrum, n)"""
+        xa = self.asarray(x)
+        if len(xa.shape) != 1:
+            raise EngineError('nd irfft')
+        m = xa.shape[0]
+        nn = N(n) if n is not None else (2 * (m - 1) if isinstance(m, int) else T.smul(2, T.ssub(m, 1)))
+        if T.is_real_like(nn):
+            raise PyExc('TypeError', 'irfft length must be an integer')
+        return self.opaque_array('irfft', [xa, nn], (nn,), 'float', assumed='inverse real DFT kernel (irfft) uninterpreted')
+
     @reg('numpy.fft.ifft')
     def np_ifft(self, x, n=None, axis=-1):
         x = self.asarray(x)
